@@ -30,9 +30,20 @@
 // otherwise the answer is the cluster's partitions of exactly the requested topics, in cluster
 // order.  Every request is journalled.  Result:
 //
-//	"<canonical> req=<r1>;<r2>;..."   r = requested topics, hex joined by ',' ("-" = empty
-//	request; "none" after req= when no request was made); lrack: distinct canonical results of
-//	the runs joined by "/" before " req="
+//	"<canonical> req=<r1>;<r2>;... wire=<w> wirediff=<n>"
+//
+// Every case runs several rounds (-wirerounds; a fresh kafka.VerifLeaderJoinSync each: real joinGroup
+// as leader members[0], real assignTopicPartitions, real syncGroup / makeSyncGroupRequestV0).
+// <canonical> = the distinct canonical assignments joinGroup returned over the rounds joined by "/"
+// (one for range/rr); r = requested topics, hex joined by ',' ("-" = empty request; "none" when no
+// request was made; distinct journals joined by "/" if they ever differ); <w> = the distinct
+// canonical forms of the SyncGroup request's GroupAssignments as the coordinator received them, raw
+// bytes decoded by hand here, canonicalised like an assignment, joined by "/" (WIREERR:<why> when a
+// member assignment does not decode, NOWIRE when there was no request); n = rounds in which the wire
+// differed from that round's returned assignment.  Markers appended only when wrong: " own=BAD" (the
+// leader's own assignment decoded by the real code from the SyncGroup response is not its wire
+// entry), " sync=BAD" (request's member id is not members[0] or generation is not 7),
+// " WIREDUPMEMBER" (a member id twice on the wire).
 //
 // <canonical> is ERR:<msg> when assignTopicPartitions returned an error and PANIC when it panicked.
 //
@@ -46,9 +57,12 @@ import (
 	"fmt"
 	"math/rand"
 	"os"
+	"runtime"
 	"sort"
 	"strconv"
 	"strings"
+	"sync"
+	"sync/atomic"
 
 	kafka "github.com/segmentio/kafka-go"
 	"kverif/kvfmt"
@@ -57,9 +71,43 @@ import (
 var out *bufio.Writer
 var id int
 
-func emit(op string, args string, res string, feats string) {
-	id++
-	fmt.Fprintf(out, "%d %s %s | %s | %s\n", id, op, args, res, feats)
+// A case is printed in generation order; the leader cases (many rounds each, no use of the
+// PRNG) are evaluated by a pool of goroutines, batch by batch, before their batch is printed.
+type pendingCase struct {
+	op, args, res, feats string
+	g                    *group // non-nil: res still to be computed by result(op, *g, nil)
+}
+
+var pending []pendingCase
+
+const batchSize = 8192
+
+func flushCases() {
+	var wg sync.WaitGroup
+	next := int64(-1)
+	for w := 0; w < runtime.GOMAXPROCS(0); w++ {
+		wg.Add(1)
+		go func() {
+			defer wg.Done()
+			for {
+				i := int(atomic.AddInt64(&next, 1))
+				if i >= len(pending) {
+					return
+				}
+				if c := &pending[i]; c.g != nil {
+					c.res = result(c.op, *c.g, nil)
+					c.g = nil
+				}
+			}
+		}()
+	}
+	wg.Wait()
+	for _, c := range pending {
+		id++
+		fmt.Fprintf(out, "%d %s %s | %s | %s\n", id, c.op, c.args, c.res, c.feats)
+	}
+	pending = pending[:0]
+	out.Flush()
 }
 
 type group struct {
@@ -241,20 +289,98 @@ func baseOp(op string) string {
 
 var leaderBalancers = []kafka.GroupBalancer{kafka.RangeGroupBalancer{}, kafka.RoundRobinGroupBalancer{}, kafka.RackAffinityGroupBalancer{}}
 
-// runLeader: one run of the real leader path against the fake broker.  The broker behaves
-// like a real one seen through Conn.ReadPartitions: a metadata request that names a topic
-// the cluster has no partition of fails as a whole with UnknownTopicOrPartition; otherwise
-// it returns the cluster's partitions of exactly the requested topics, in cluster order.
-// Every request is journalled.
-func runLeader(op string, g group) (res string, req string) {
+// leaderRound is what one round of the leader path showed.
+type leaderRound struct {
+	ret, req, wire         string // canonical returned assignment, request journal, canonical decoded SyncGroup request
+	diff, own, sync, dupID bool   // wire != returned; leader's own assignment != its wire entry; wrong member/generation; duplicate member on the wire
+}
+
+// decodeAssignment decodes a client-encoded member assignment by hand (no kafka code):
+// int16 version (1); int32 #topics; per topic int16 length + bytes, int32 count, count x int32
+// (big endian); int32 userdata length (-1 or 0 = none) + bytes; nothing after that.
+func decodeAssignment(b []byte) (map[string][]int, string) {
+	pos := 0
+	need := func(n int) bool { return n >= 0 && pos+n <= len(b) }
+	i16 := func() int { v := int(int16(uint16(b[pos])<<8 | uint16(b[pos+1]))); pos += 2; return v }
+	i32 := func() int {
+		v := int(int32(uint32(b[pos])<<24 | uint32(b[pos+1])<<16 | uint32(b[pos+2])<<8 | uint32(b[pos+3])))
+		pos += 4
+		return v
+	}
+	if !need(2) {
+		return nil, "short-version"
+	}
+	if v := i16(); v != 1 {
+		return nil, fmt.Sprintf("version=%d", v)
+	}
+	if !need(4) {
+		return nil, "short-topic-count"
+	}
+	nt := i32()
+	if nt < 0 {
+		return nil, "negative-topic-count"
+	}
+	res := map[string][]int{}
+	for k := 0; k < nt; k++ {
+		if !need(2) {
+			return nil, "short-topic-length"
+		}
+		tl := i16()
+		if !need(tl) {
+			return nil, "short-topic"
+		}
+		t := string(b[pos : pos+tl])
+		pos += tl
+		if _, dup := res[t]; dup {
+			return nil, "duplicate-topic"
+		}
+		if !need(4) {
+			return nil, "short-partition-count"
+		}
+		np := i32()
+		if np < 0 || !need(4*np) {
+			return nil, "short-partitions"
+		}
+		l := make([]int, np)
+		for i := range l {
+			l[i] = i32()
+		}
+		res[t] = l
+	}
+	if !need(4) {
+		return nil, "short-userdata-length"
+	}
+	if ul := i32(); ul > 0 {
+		if !need(ul) {
+			return nil, "short-userdata"
+		}
+		pos += ul
+	} else if ul < -1 {
+		return nil, "bad-userdata-length"
+	}
+	if pos != len(b) {
+		return nil, "trailing-bytes"
+	}
+	return res, ""
+}
+
+// runLeader: one round of the real leader path (joinGroup as leader -> assignTopicPartitions ->
+// syncGroup -> makeSyncGroupRequestV0) against the fake broker.  The broker behaves like a real
+// one seen through Conn.ReadPartitions: a metadata request that names a topic the cluster has no
+// partition of fails as a whole with UnknownTopicOrPartition; otherwise it returns the cluster's
+// partitions of exactly the requested topics, in cluster order.  Every request is journalled.
+// The SyncGroup request the coordinator received is decoded by hand and canonicalised like an
+// assignment.
+func runLeader(op string, g group) (out leaderRound) {
 	var journal []string
+	out.wire = "NOWIRE"
 	defer func() {
 		if e := recover(); e != nil {
-			res = "PANIC"
+			out.ret = "PANIC"
 		}
-		req = "none"
+		out.req = "none"
 		if len(journal) > 0 {
-			req = strings.Join(journal, ";")
+			out.req = strings.Join(journal, ";")
 		}
 	}()
 	exists := map[string]bool{}
@@ -287,36 +413,105 @@ func runLeader(op string, g group) (res string, req string) {
 		return ps, nil
 	}
 	proto := map[string]string{"lrange": "range", "lrr": "roundrobin", "lrack": "rack-affinity"}[op]
-	a, err := kafka.VerifAssignTopicPartitions(leaderBalancers, proto, cloneMembers(g.ms), read)
+	keep := op != "lrack"
+	returned, wire, syncMember, syncGen, own, err := kafka.VerifLeaderJoinSync(leaderBalancers, proto, cloneMembers(g.ms), read)
 	if err != nil {
-		return "ERR:" + strings.Join(strings.Fields(err.Error()), "_"), ""
+		out.ret = "ERR:" + strings.Join(strings.Fields(err.Error()), "_")
+		return
 	}
-	return canon(a, op != "lrack"), ""
+	out.ret = canon(returned, keep)
+	leaderID := ""
+	if len(g.ms) > 0 {
+		leaderID = g.ms[0].ID
+	}
+	out.sync = syncMember != leaderID || syncGen != 7
+	w := kafka.GroupMemberAssignments{}
+	for _, e := range wire {
+		if _, dup := w[e.MemberID]; dup {
+			out.dupID = true
+		}
+		m, why := decodeAssignment(e.MemberAssignments)
+		if why != "" {
+			out.wire = "WIREERR:" + why
+			out.diff = true
+			return
+		}
+		w[e.MemberID] = m
+	}
+	out.wire = canon(w, keep)
+	out.diff = canon(w, false) != canon(returned, false) || (keep && out.wire != out.ret)
+	// the leader's own assignment, as the real code decoded it from the SyncGroup response
+	ownInt := map[string][]int{}
+	for t, l := range own {
+		for _, v := range l {
+			ownInt[t] = append(ownInt[t], int(v))
+		}
+	}
+	mine := kafka.GroupMemberAssignments{leaderID: w[leaderID]}
+	out.own = canon(kafka.GroupMemberAssignments{leaderID: ownInt}, false) != canon(mine, false)
+	return
+}
+
+var wireRounds = 0 // -wirerounds; 0 = 10 for >= 2 members with different subscriptions, else 3
+
+func leaderRounds(op string, g group) int {
+	n := wireRounds
+	if n <= 0 {
+		n = 3
+		if len(g.ms) >= 2 {
+			set := func(m kafka.GroupMember) string {
+				l := append([]string(nil), m.Topics...)
+				sort.Strings(l)
+				return strings.Join(l, "\x00|")
+			}
+			for _, m := range g.ms {
+				if set(m) != set(g.ms[0]) {
+					n = 10
+					break
+				}
+			}
+		}
+	}
+	if op == "lrack" && n < rackRuns {
+		n = rackRuns
+	}
+	return n
+}
+
+func sortedKeys(m map[string]bool) []string {
+	l := make([]string, 0, len(m))
+	for s := range m {
+		l = append(l, s)
+	}
+	sort.Strings(l)
+	return l
 }
 
 func result(op string, g group, r *rand.Rand) string {
 	if isLeader(op) {
-		runs := 1
-		if op == "lrack" {
-			runs = rackRuns
+		rets, reqs, wires := map[string]bool{}, map[string]bool{}, map[string]bool{}
+		ndiff := 0
+		own, syn, dup := false, false, false
+		for i, n := 0, leaderRounds(op, g); i < n; i++ {
+			o := runLeader(op, g)
+			rets[o.ret], reqs[o.req], wires[o.wire] = true, true, true
+			if o.diff {
+				ndiff++
+			}
+			own, syn, dup = own || o.own, syn || o.sync, dup || o.dupID
 		}
-		seen, reqs := map[string]bool{}, map[string]bool{}
-		for i := 0; i < runs; i++ {
-			c, q := runLeader(op, g)
-			seen[c] = true
-			reqs[q] = true
+		res := strings.Join(sortedKeys(rets), "/") + " req=" + strings.Join(sortedKeys(reqs), "/") +
+			" wire=" + strings.Join(sortedKeys(wires), "/") + fmt.Sprintf(" wirediff=%d", ndiff)
+		if own {
+			res += " own=BAD"
 		}
-		l := make([]string, 0, len(seen))
-		for s := range seen {
-			l = append(l, s)
+		if syn {
+			res += " sync=BAD"
 		}
-		sort.Strings(l)
-		q := make([]string, 0, len(reqs))
-		for s := range reqs {
-			q = append(q, s)
+		if dup {
+			res += " WIREDUPMEMBER"
 		}
-		sort.Strings(q)
-		return strings.Join(l, "/") + " req=" + strings.Join(q, "/")
+		return res
 	}
 	if op == "rack" {
 		seen := map[string]bool{}
@@ -594,7 +789,18 @@ func emitCase(op string, g group, r *rand.Rand, extra string) {
 	if extra != "" {
 		ft += "," + extra
 	}
-	emit(op, encGroup(g), result(op, g, r), ft)
+	if isLeader(op) {
+		ft += fmt.Sprintf(",rounds=%d", leaderRounds(op, g))
+	}
+	if isLeader(op) {
+		gc := g
+		pending = append(pending, pendingCase{op: op, args: encGroup(g), feats: ft, g: &gc})
+	} else {
+		pending = append(pending, pendingCase{op: op, args: encGroup(g), res: result(op, g, r), feats: ft})
+	}
+	if len(pending) >= batchSize {
+		flushCases()
+	}
 }
 
 // ---------------------------------------------------------------- random groups
@@ -1076,11 +1282,12 @@ func main() {
 	exh := flag.Int("exhaustive", 0, "small-scope enumeration: 0 none, 1 quick scope, 2 thorough scope")
 	flag.IntVar(&rackRuns, "rackruns", 8, "how often the rack balancer is run on each case (its result depends on map iteration order)")
 	flag.Bool("unknown", true, "no-op, kept for old command lines: the fake broker always answers UnknownTopicOrPartition for a request naming a topic the cluster lacks")
+	flag.IntVar(&wireRounds, "wirerounds", 0, "leader ops: rounds per case (a fresh join+sync each, so that map iteration orders vary); 0 = 10 for >= 2 members with different subscriptions, else 3; lrack at least -rackruns")
 	one := flag.String("case", "", "run the single case '<op> <members> <partitions>' and print its line")
 	flag.Parse()
 	r := rand.New(rand.NewSource(*seed))
 	out = bufio.NewWriterSize(os.Stdout, 1<<20)
-	defer out.Flush()
+	defer flushCases()
 
 	if *one != "" {
 		f := strings.Fields(*one)
